@@ -335,7 +335,21 @@ def index_family():
         'unique_together': [], 'index_together': [], 'indexes': [], 'constraints': []}
     spec3 = {'apps': [{'id': 'vapp', 'models': [mk('vapp', 'Tag'), mk('vapp', 'Topic')]},
                       {'id': 'wapp', 'models': [mk('wapp', 'Tag')]}]}
+    # a partial index (Meta.indexes entry with a condition) that keeps its name and fields and loses the condition -
+    # exactly the entry a hint writes for an index without attributes -, alone and next to an untouched second index
+    part = lambda *ix: {'apps': [{'id': 'vapp', 'models': [
+        {'name': 'Order', 'table': 'vapp_order', 'fields': [
+            fld('id', 'AutoField', primary_key=True), fld('reference', 'CharField', max_length=20, null=True),
+            fld('amount', 'IntegerField', null=True)],
+         'unique_together': [], 'index_together': [], 'indexes': list(ix), 'constraints': []}]}]}
+    open_ix = {'name': 'vapp_order_open_idx', 'fields': ['amount'], 'condition': {'amount__gt': 0}}
+    ref_ix = {'fields': ['reference'], 'name': 'vapp_order_ref_idx'}       # keys in the order a hint writes them
+    cm_ix = lambda *ix: {'t': 'ChangeMeta', 'model': 'Order', 'prop': 'indexes', 'py_value': list(ix)}
+    plain_open = {'fields': ['amount'], 'name': 'vapp_order_open_idx'}
     return [
+        (part(open_ix), [cm_ix(plain_open)]),
+        (part(open_ix, ref_ix), [cm_ix(plain_open, ref_ix)]),
+        (part(ref_ix, open_ix), [cm_ix(ref_ix, plain_open)]),
         (spec, [{'t': 'RenameField', 'model': 'Order', 'old': 'reference', 'new': 'order_no', 'db_column': None,
                  'db_table': None}, cf('Order', 'order_no', ('db_index', 'false'))]),
         (spec, [cf('Order', 'reference', ('db_column', '"ref_col"')), cf('Order', 'reference', ('db_index', 'false'))]),
